@@ -22,6 +22,17 @@ open UtapModel.Pratt UtapModel.ExprTable UtapModel.ExprGrammar UtapModel.Spec
 /-- the one numeric fact the general theorem needs of a table: the inline-if production is not above the token `?` -/
 theorem utapT_tern_le_quest : utapT.ternL ≤ utapT.questL := by decide
 
+/-- **no identifier is silently cut**: every identifier length that the lexer does not report fits the token buffer whole
+    (`identTooLongFrom`, `identBufKeeps`: regenerated from the identifier rule of lexer.l and MAXLEN of libparser.h) -/
+theorem C02_identifier_not_truncated (n : Nat) (h : n < identTooLongFrom) : n ≤ identBufKeeps := by
+  have : identTooLongFrom ≤ identBufKeeps + 1 := by decide
+  omega
+
+/-- **no string literal is silently cut**: the same for the token of a string literal (quotes included) -/
+theorem C02_string_not_truncated (n : Nat) (h : n < stringTooLongFrom) : n ≤ identBufKeeps := by
+  have : stringTooLongFrom ≤ identBufKeeps + 1 := by decide
+  omega
+
 /-- **The generated grammar table is the UPPAAL operator table**: same operators in the same roles with the same
 resulting kinds, the same order of precedence levels and the same associativity per level (level *numbers* aside). -/
 theorem utap_matches_spec : rows genData = rows specData := by decide +kernel
